@@ -272,6 +272,10 @@ Inductive trans (s : st) : op -> st -> out -> Prop :=
     trans s (DropRefresh cl)
       {| reqs := reqs s; codes := codes s; rtoks := rtoks s; next := next s; ncode := ncode s;
          norefresh := cl :: norefresh s |} ODone
+| T_dropall cl :
+    trans s (DropGrants cl)
+      {| reqs := reqs s; codes := codes s; rtoks := rtoks s; next := next s; ncode := ncode s;
+         norefresh := cl :: ("*" ++ cl)%string :: norefresh s |} ODone
 | T_revoke n :
     trans s (RevokeRT n)
       {| reqs := reqs s; codes := codes s; rtoks := filter (fun x => negb (Nat.eqb (r_id x) n)) (rtoks s);
@@ -349,7 +353,7 @@ Proof.
       apply prov_code_client_inl in Hc as [Hf [Hp Hpub]].
       destruct (String.eqb (c_id c) (q_client q)) eqn:E; cbn [negb]; [|intros [= <- <-]; terr].
       apply String.eqb_eq in E. rewrite E in Hf, Hp.
-      destruct (c_code c); cbn [negb]; [|intros [= <- <-]; terr].
+      destruct (has_code s c); cbn [negb]; [|intros [= <- <-]; terr].
       destruct (String.eqb uri (q_uri q)) eqn:Eu; cbn [negb]; [|intros [= <- <-]; terr].
       apply String.eqb_eq in Eu. intro Hi.
       replace s' with (fst (issue_code cf s q c)) by now rewrite Hi.
@@ -358,7 +362,7 @@ Proof.
       intros ch Hch. rewrite Hch in Hpk. apply pkce_pass in Hpk as [c0 [[= <-] Hok]]. exact Hok.
     + unfold legacy_code. destruct (legacy_client cf cr) as [c|e] eqn:Hc; [|intros [= <- <-]; terr].
       apply legacy_client_inl in Hc as [Hf Hp].
-      destruct (c_code c); cbn [negb]; [|intros [= <- <-]; terr].
+      destruct (has_code s c); cbn [negb]; [|intros [= <- <-]; terr].
       destruct code as [cd|]; [|intros [= <- <-]; terr].
       destruct (String.eqb uri ""); [intros [= <- <-]; terr|].
       destruct (code_req s cd) as [q|] eqn:Hq; [|intros [= <- <-]; terr].
@@ -500,7 +504,7 @@ Qed.
 
 Lemma step_trans r s o s' x : step H cf r s o = (s', x) -> trans H cf s o s' x.
 Proof.
-  destruct o as [cl uri scopes nonce chal ax | n sub stamp | n | pl f cr code uri ver | pl cr rt scopes | cl | n]; cbn [step].
+  destruct o as [cl uri scopes nonce chal ax | n sub stamp | n | pl f cr code uri ver | pl cr rt scopes | cl | cl | n]; cbn [step].
   - (* authorize *)
     unfold do_authorize. destruct (find_client cf cl); [|intros [= <- <-]; (apply T_same; exact I)].
     destruct (ro_accepted cf ax && string_in (eff_uri uri ax) (c_redirects c) && negb (is_nil (eff_scopes scopes ax)) && extra_ok ax); intros [= <- <-];
@@ -513,6 +517,7 @@ Proof.
     + apply code_step_trans.
   - rewrite read_grant_ok, read_field_ok. apply refresh_step_trans.
   - intros [= <- <-]. apply T_drop.
+  - intros [= <- <-]. apply T_dropall.
   - intros [= <- <-]. apply T_revoke.
 Qed.
 
